@@ -72,6 +72,7 @@ def run(tier):
         sc1.write_files()
         sc2 = delta.Scenario(cid + "-resume", wd, B, T, sources=[A], limit=limit, frag=frag, fetch_opts=opts)
         sc2.tpath = sc1.tpath; sc2.bpath = sc1.bpath; sc2.spaths = sc1.spaths
+        sc2.must = True          # the restart runs undisturbed against a well-behaved server: it has to converge
         # the kill: after j bytes of the k-th write (None = half of it: the shim clamps to the call's size)
         s1 = sc1.script().replace("dl_init 0 0\n", "dl_init 0 0\nshim_kill 0 %d %d\n" % (k, {0: 0, -1: -1, None: 3}[jj] if jj is not None else 0), 1) if False else None
         lines = sc1.script().splitlines()
